@@ -335,3 +335,25 @@ def _(v):
     v.prove("unknown_key_on_any_line_is_refused", all(refused), detail=repr(refused))
     es = EqSystem.from_string("H2O = H+ + OH-; 1e-14\nNH4+ = NH3 + H+; 5.6e-10")
     v.prove("equilibria_use_the_equals_arrow", [(dict(r.reac), dict(r.prod), r.param) for r in es.rxns] == [({"H2O": 1}, {"H+": 1, "OH-": 1}, 1e-14), ({"NH4+": 1}, {"H+": 1, "NH3": 1}, 5.6e-10)])
+
+
+@harness("C12", "system_text_uses_the_species_keys", functions=["chempy.reactionsystem:ReactionSystem.string", "chempy.printing.string:StrPrinter._print_ReactionSystem"], kind="data")
+def _(v):
+    """the text of a system is written with the species KEYS (what the reactions refer to and what the parser reads back against the key list), also
+    when the Substance objects carry different display names; fractional coefficients are printed, not dropped"""
+    from collections import OrderedDict
+    from chempy.chemistry import Reaction, Substance
+    from chempy.reactionsystem import ReactionSystem
+    subs = OrderedDict([("H2O2", Substance("hydrogen peroxide")), ("H2O", Substance("water")), ("O2", Substance("oxygen"))])
+    rs = ReactionSystem([Reaction({"H2O2": 2}, {"H2O": 2, "O2": 1}, 3.0)], subs, checks=())
+    txt = rs.string()
+    v.prove("keys_not_display_names", txt.strip() == "2 H2O2 -> 2 H2O + O2; 3", detail=repr(txt))
+    try:
+        back = ReactionSystem.from_string(txt, list(subs), substance_factory=Substance)
+        ok = [(dict(r.reac), dict(r.prod)) for r in back.rxns] == [({"H2O2": 2}, {"H2O": 2, "O2": 1})]
+    except Exception as ex:
+        ok = repr(ex)
+    v.prove("reads_back_against_the_key_list", ok is True, detail=repr(ok))
+    half = Reaction({"H2O2": 1}, {"H2O": 1, "O2": 0.5}, checks=())
+    v.prove("coefficient_below_one_is_printed", str(half) == "H2O2 -> H2O + 0.5 O2" and half.unicode({}) == "H2O2 → H2O + 0.5 O2" and "0.5 O" in half.latex({}) and "0.5 O" in half.html({}),
+            detail=repr((str(half), half.unicode({}), half.latex({}), half.html({}))))
